@@ -234,6 +234,10 @@ func TestCheck(t *testing.T) {
 		floodChild(t)
 		return
 	}
+	if job, ok := runner.Job(); ok {
+		afterChild(t, job) // part (3): one configuration of after_test.go
+		return
+	}
 	r := runner.Start("C09", "model_checking")
 	dir := filepath.Join(runner.Scratch(), "c09")
 	// "no matter how many other requests happen in between": floods of 20 000 requests between the original and its replay
@@ -241,6 +245,12 @@ func TestCheck(t *testing.T) {
 	var floods *floodRun
 	if _, child := runner.IsShard(); !child && runner.ReplayPath() == "" {
 		floods = startFloods(dir+"-flood", floodHists(r.Thorough()), runner.Pick(r, 1, 8))
+	}
+	// part (3), after_test.go: fan-out + queue limits + drains, management mutations and failing reloads - searches of
+	// their own in child processes next to everything else
+	var after *afterRun
+	if _, child := runner.IsShard(); !child && runner.ReplayPath() == "" {
+		after = startAfter(r)
 	}
 	// ---- (1) explicit-state search over send / clock / reload histories --------------------------------
 	type out struct {
@@ -282,6 +292,7 @@ func TestCheck(t *testing.T) {
 				Op      *op    `json:"op"`
 			} `json:"replay"`
 		}
+		replayAfter(r, t, rp)
 		if b, err := os.ReadFile(rp); err == nil && json.Unmarshal(b, &doc) == nil {
 			switch doc.Replay.Engine {
 			case "flood":
@@ -407,6 +418,9 @@ func TestCheck(t *testing.T) {
 		}
 		schedrun.Run(r, t, schedrun.Spec{Name: name, Bound: runner.Pick(r, 3, -1), Shards: 8, Budget: runner.Pick(r, 20*time.Second, 4*time.Minute), MaxExecs: 300000,
 			Body: body, Oracle: oracle, VioKey: func(f *sched.Failure) string { return cls }})
+	}
+	if after != nil {
+		after.wait()
 	}
 	if floods != nil {
 		floods.collect(r)
